@@ -16,6 +16,7 @@ RULE = ("requests `fromint <type>:<v>` (9 types via From, u128 via TryFrom) and 
         "seeded random operands. Non-trivial = scale > 0, or value within 1 of a type bound")
 BUILDS = {"quick": [("dev", ()), ("release", ())],
           "thorough": [("dev", ()), ("release", ()), ("release", ("packed",)), ("o0-nochk", ())]}
+MODE_INDEPENDENT = True      # half of every batch runs under a non-default thread rounding mode
 REQUIRED_SITES = {}
 BUDGET = {"quick": 15, "thorough": 200}
 N_RANDOM = {"quick": 15000, "thorough": 50000}
